@@ -19,7 +19,7 @@ TYReq      == IsEvent("YReq") /\ (Poll(C) \/ PollW(C)) /\ Consume
 (* the reply carries the count: the TNC's transmissions since the last report are inferred from it *)
 TYRep      == /\ IsEvent("YRep") /\ C \in pending /\ Ev.n <= out[C]
               /\ out' = [out EXCEPT ![C] = Ev.n] /\ pending' = pending \ {C} /\ wire' = Append(wire, <<C, Ev.n>>)
-              /\ UNCHANGED <<pc, written, seen>> /\ Consume
+              /\ UNCHANGED <<pc, written, seen, tvs>> /\ Consume
 TFlushRet  == IsEvent("FlushRet") /\ pc[C] = "flushed" /\ UNCHANGED vars /\ Consume
 TQuiet     == Deliver /\ Silent
 
